@@ -617,3 +617,5 @@ V("c08b-attenuator-weight-asymmetric", "C08", {"rule": "C08b", "contains": "atte
   (FSTEPS, "np.tan(theta) ** (2 * k) * np.sqrt(comb(n, k) * comb(m, k))", "np.tan(theta) ** (2 * k) * comb(n, k)"))
 V("c08b-preserving-T-attribute", "C08", "silent",
   (GENSTEPS, "    state._density_matrix = operator @ state._density_matrix @ operator.transpose()\n", "    state._density_matrix = operator @ state._density_matrix @ operator.T\n", 2))
+V("c19d-qubit-position-in-instruction", "C19", {"rule": "C19d", "contains": "instruction-local"},
+  (DR, "        qubit_indices = [qc.find_bit(q).index for q in instr_qiskit.qubits]", "        qubit_indices = [instr_qiskit.qubits.index(q) for q in instr_qiskit.qubits]"))
